@@ -113,11 +113,13 @@ def judge(dev, fmt, vendor, rbk, top, rules, state, new, report, memo=None):
         return None, ncmds
     exp = refdev.expected(top, state, new)
     cres, cexp = refrb.canon_state(top, res), refrb.canon_state(top, exp)
-    if cres != cexp:
+    cnew = refrb.canon_state(top, new)
+    # the device holding exactly the desired configuration is convergence whatever the reference allows to be kept (a
+    # removed-and-re-created %ordered block gets the new text of an ignore_changes child: the old one went with the block)
+    if cres != cexp and cres != cnew:
         report(dict(base, kind="not-converged"), case,
                "after deploying: device=%r expected=%r cmds=%r" % (res, exp, paths))
         return None, ncmds
-    cnew = refrb.canon_state(top, new)
     if refrb.canon_state(top, state) == cnew:
         from annet import patching
         if diff or ncmds:
